@@ -31,7 +31,8 @@ RULE = (
 ASSUMPTIONS = [
     "normalisations allowed: upper-cased parameter names (ODL/PDS3), ODL-family "
     "string folding, naive time -> UTC (PVL, PDS3, ISIS), GROUP->OBJECT (PDS3), "
-    "set == frozenset; aware temporals compare by instant",
+    "set == frozenset; aware temporals compare by instant; the PDS3 encoder's "
+    "documented tab_replace option turns a TAB inside a units expression into blanks",
     "ISIS strict reader = PVLParser(ISISGrammar, PVLDecoder(ISISGrammar)), the "
     "pair ISISEncoder itself uses",
 ]
@@ -109,7 +110,7 @@ def run_case(case, reader=None, prop="C01", check_errors=False):
         return ("fail", f"{prop}/{enc}/reload-fails/{type(e).__name__}",
                 f"{reader} load raised {type(e).__name__}: "
                 f"{str(e)[:200]}; text={text!r}")
-    n = nm.norm_for(enc, reader)
+    n = nm.norm_for(enc, reader, case["cfg"])
     exp = nm.expect_module(spec, n)
     got = nm.canon(m2)
     d = nm.diff(exp, got, allow_g2o=(enc == "PDS3"))
